@@ -368,6 +368,15 @@ def run(chk):
                         ok = True
                     elif rk == "range":
                         ok = a.hi <= e.lo and e.hi <= s.lo
+                        if not ok and a.hi <= e.lo:
+                            # end <= length of the receiver by a dominating comparison (`if end <= data.len() { &data[a..end] }`)
+                            rt = iv.root(t["args"][0])
+                            pl = flow.op_place(t["args"][1])
+                            d = du.single_def(pl[0]) if pl and pl[1] == () else None
+                            if rt and d and d[0] == "assign" and d[4]["k"] == "agg" and d[4]["ops"]:
+                                ok = iv.rel_holds(st, "le", iv.sym(d[4]["ops"][-1]), ("l",) + rt)
+                                if ok:
+                                    wit_rel = True
                     elif rk == "to":
                         ok = e.hi <= s.lo
                         if not ok:
